@@ -156,8 +156,13 @@ def err(a, b, trim=0):
     return float(np.max(d)) if d.size else 0.0
 
 
-def order_ok(e1, e2, p, floor, slack=1.5):
-    """The convergence rule. Returns (ok, q)."""
+def order_ok(e1, e2, p, floor, slack=None):
+    """The convergence rule. Returns (ok, q). The slack grows with the order
+    (1.5 up to p = 5, 0.3 p above): at k*h ~ 0.5 on the coarse level the
+    8th-order schemes are not yet asymptotic (observed q = 6.5 on correct
+    code), while every real defect gives q ~ 0."""
+    if slack is None:
+        slack = max(1.5, 0.3 * p)
     if not np.isfinite(e2) or not np.isfinite(e1):
         return False, float("nan")
     if e2 <= floor:
